@@ -233,7 +233,10 @@ def enc : Option (UInt64 × UInt64) → List Val
   | some (id, val) => [.u64 id, .u64 val]
 
 def headT : List Stmt := tailStmts.take 3
-def intIte : Stmt := tailStmts.getD 3 .brk
+def intIte : Stmt :=
+  match goparseNumber.body with
+  | _ :: _ :: _ :: _ :: _ :: _ :: _ :: _ :: s :: _ => s
+  | _ => .brk
 def floatT : List Stmt := tailStmts.drop 4
 theorem tail_eq : tailStmts = headT ++ ([intIte] ++ floatT) := rfl
 
@@ -320,7 +323,164 @@ theorem int_sim (b : Bytes) (tape : Array UInt64) (fuel : Nat) (e : Env) (pn : N
   cases isInt with
   | false =>
     simp [intIte, tailStmts, goparseNumber, hb, hp, hf, hft, hI]
-    trace_state
-    sorry
-  | true => sorry
+  | true =>
+    by_cases h20 : pn ≤ cmaxIntLen
+    · have h20i : (pn : Int) ≤ 20 := by simp [cmaxIntLen] at h20; omega
+      cases minus with
+      | false =>
+        simp only [Bool.not_false] at hM
+        by_cases hlz : pn > 1 ∧ c0 = 48
+        · have hg : (1 : Int) < pn := by omega
+          simp [intIte, tailStmts, goparseNumber, hb, hp, hf, hft, hI, hM, h20, h20i, hszn, hc0, hlz.1, hlz.2, hg, enc]
+        · have hcs : (¬ (1 : Int) < pn ∧ True) ∨ ((1 : Int) < pn ∧ (c0 == 48) = false) := by
+            by_cases hg : pn > 1
+            · exact Or.inr ⟨by omega, beq_false_of_ne (fun h => hlz ⟨hg, h⟩)⟩
+            · exact Or.inl ⟨by omega, trivial⟩
+          have hlz' : ¬ (1 < pn ∧ c0 = 48) := hlz
+          rcases hcs with ⟨hgi, hz'⟩ | ⟨hgi, hz'⟩
+          all_goals
+            cases hpi : parseInt64 (b.toList.take pn) with
+            | ok z =>
+              simp [intIte, tailStmts, goparseNumber, hb, hp, hf, hft, hI, hM, h20, h20i, hszn, hc0, hgi, hz', hlz', enc,
+                hle, hx, hpi, mkWord, tagInteger, ofInt64, UInt64.ofInt]
+            | error er =>
+              cases hpu : parseUint64 (b.toList.take pn) with
+              | ok n =>
+                cases er <;>
+                simp [intIte, tailStmts, goparseNumber, hb, hp, hf, hft, hI, hM, h20, h20i, hszn, hc0, hgi, hz', hlz', enc,
+                  hle, hx, hpi, hpu, mkWord, tagUint]
+              | error er2 =>
+                cases er <;> cases er2 <;>
+                simp [intIte, tailStmts, goparseNumber, hb, hp, hf, hft, hI, hM, h20, h20i, hszn, hc0, hgi, hz', hlz', enc,
+                  hle, hx, hpi, hpu, mkWord, tagFloat, wFloatOverflowedInteger, UInt64.or_assoc]
+      | true =>
+        simp only [Bool.not_true] at hM
+        by_cases hlz : pn > 2 ∧ c1 = 48
+        · have hg : (2 : Int) < pn := by omega
+          have n1 : (1 : Int) < b.size := by omega
+          simp [intIte, tailStmts, goparseNumber, hb, hp, hf, hft, hI, hM, h20, h20i, n1, hc1, hlz.1, hlz.2, hg, enc]
+        · have hcs : (¬ (2 : Int) < pn ∧ True ∧ True) ∨ ((2 : Int) < pn ∧ (c1 == 48) = false ∧ (1 : Int) < b.size) := by
+            by_cases hg : pn > 2
+            · exact Or.inr ⟨by omega, beq_false_of_ne (fun h => hlz ⟨hg, h⟩), by omega⟩
+            · exact Or.inl ⟨by omega, trivial, trivial⟩
+          have hlz' : ¬ (2 < pn ∧ c1 = 48) := hlz
+          rcases hcs with ⟨hgi, hz', n1⟩ | ⟨hgi, hz', n1⟩
+          all_goals
+            cases hpi : parseInt64 (b.toList.take pn) with
+            | ok z =>
+              simp [intIte, tailStmts, goparseNumber, hb, hp, hf, hft, hI, hM, h20, h20i, n1, hc1, hgi, hz', hlz', enc,
+                hle, hx, hpi, mkWord, tagInteger, ofInt64, UInt64.ofInt]
+            | error er =>
+              cases er <;>
+              simp [intIte, tailStmts, goparseNumber, hb, hp, hf, hft, hI, hM, h20, h20i, n1, hc1, hgi, hz', hlz', enc,
+                hle, hx, hpi, mkWord, tagFloat, wFloatOverflowedInteger]
+    · have h20i : ¬ (pn : Int) ≤ 20 := by simp [cmaxIntLen] at h20; omega
+      simp [intIte, tailStmts, goparseNumber, hb, hp, hf, hft, hI, h20, h20i, wFloatOverflowedInteger]
+
+theorem u8_and_beq (fu c : UInt8) : (fu &&& c == 0) = (fu.toNat &&& c.toNat == 0) := by
+  rw [Bool.eq_iff_iff]
+  simp only [beq_iff_eq, ← UInt8.toNat_inj, UInt8.toNat_and]
+  rfl
+
+/-- everything after the loop -/
+theorem tail_sim (b : Bytes) (tape : Array UInt64) (fuel : Nat) (e : Env) (pn : Nat) (fu : UInt8)
+    (hb : e.get "buf" = some (.bytes b)) (hp : e.get "pos" = some (.int pn)) (hf : e.get "found" = some (.u8 fu))
+    (hle : pn ≤ b.size) :
+    ∃ s', exec goFuns fuel tailStmts ⟨e, tape⟩ =
+      .ret s' (enc (NumberProofs.core b.toList pn (fu.toNat &&& cisFloatOnlyFlag == 0) (fu.toNat &&& cisMinusFlag != 0))) ∧
+      s'.tape = tape := by
+  by_cases h0 : pn = 0
+  · subst h0
+    simp [tailStmts, goparseNumber, hb, hp, hf, NumberProofs.core, enc]
+  · have hhead : exec goFuns fuel headT ⟨e, tape⟩ = .normal ⟨e.set "floatTag" (.u64 (mkWord tagFloat 0)), tape⟩ := by
+      have : ((pn : Int) == 0) = false := by simp; omega
+      simp [headT, tailStmts, goparseNumber, hb, hp, hf, this, mkWord, tagFloat]
+    rw [tail_eq, GoRebuild.exec_append, hhead]
+    simp only []
+    rw [GoRebuild.exec_append]
+    have hI : (fu &&& 2 == 0) = (fu.toNat &&& cisFloatOnlyFlag == 0) := u8_and_beq fu 2
+    have hM : (fu &&& 4 == 0) = !(fu.toNat &&& cisMinusFlag != 0) := by
+      rw [u8_and_beq fu 4]; simp [bne, cisMinusFlag]
+    rcases int_sim b tape fuel (e.set "floatTag" (.u64 (mkWord tagFloat 0))) pn fu _ _ (by simp [hb]) (by simp [hp])
+      (by simp [hf]) (by simp) hI hM (by omega) hle with ⟨s', hex, ht⟩ | ⟨e', ft, hex, hb', hp', hft', hcore⟩
+    · rw [hex]
+      exact ⟨s', rfl, ht⟩
+    · rw [hex, hcore]
+      exact float_sim b tape fuel e' pn ft hb' hp' hft' (by omega) hle
 end Tail
+
+/-! ## parseNumber: the whole function -/
+
+/-- the interpreter on any slice `b`: the two returned words are the model's (`NumberProofs.parseNumberL`, the list-level
+    copy to which `parseNumber` is equal), the tape is untouched; never a panic, never stuck.  No hypothesis on `b`
+    (for the empty slice the loop body never runs, `pos == 0`, and `buf[0]` is never evaluated). -/
+theorem parseNumber_run (b : Bytes) (fuel : Nat) (tape : Array UInt64) :
+    ∃ s, runFun goFuns goparseNumber fuel ⟨[("buf", .bytes b)], tape⟩ = .ret s (enc (NumberProofs.parseNumberL b.toList)) ∧
+      s.tape = tape := by
+  have hpre : exec goFuns fuel [.assign "id" (.u64 0), .assign "val" (.u64 0), .assign "pos" (.int 0),
+      .assign "found" (.conv .u8 (.u8 0))] ⟨[("buf", .bytes b)], tape⟩ =
+      .normal ⟨[("buf", .bytes b), ("id", .u64 0), ("val", .u64 0), ("pos", .int 0), ("found", .u8 0)], tape⟩ := by
+    simp
+  have hloop := scan_loop b tape fuel b.toList 0
+    ⟨[("buf", .bytes b), ("id", .u64 0), ("val", .u64 0), ("pos", .int 0), ("found", .u8 0)], tape⟩ 0 rfl (Nat.zero_le _) rfl
+    (by simp) (by simp) (by simp)
+  have hbody : goparseNumber.body = [.assign "id" (.u64 0), .assign "val" (.u64 0), .assign "pos" (.int 0),
+      .assign "found" (.conv .u8 (.u8 0))] ++ ([.rangeIB "i" "v" (.v "buf") loopBody] ++ tailStmts) := rfl
+  unfold runFun NumberProofs.parseNumberL
+  rw [hbody, GoRebuild.exec_append, hpre]
+  simp only []
+  rw [GoRebuild.exec_append]
+  have hr : exec goFuns fuel [.rangeIB "i" "v" (.v "buf") loopBody]
+      ⟨[("buf", .bytes b), ("id", .u64 0), ("val", .u64 0), ("pos", .int 0), ("found", .u8 0)], tape⟩ =
+      match execRangeI goFuns fuel "i" "v" 0 b.toList loopBody
+        ⟨[("buf", .bytes b), ("id", .u64 0), ("val", .u64 0), ("pos", .int 0), ("found", .u8 0)], tape⟩ with
+      | .normal s' => .normal s'
+      | o => o := by
+    simp
+    generalize execRangeI goFuns fuel "i" "v" 0 b.toList loopBody _ = out
+    cases out <;> rfl
+  rw [hr]
+  revert hloop
+  simp only [UInt8.toNat_zero]
+  cases NumberProofs.scan b.toList 0 0 with
+  | none =>
+    rintro ⟨s', hex, ht⟩
+    rw [hex]
+    exact ⟨s', rfl, ht⟩
+  | some pf =>
+    obtain ⟨p, f⟩ := pf
+    rintro ⟨s', fu', hex, ht, hb', hf', hfu, hp', hle⟩
+    rw [hex]
+    simp only []
+    subst hfu
+    obtain ⟨s'', h1, h2⟩ := tail_sim b tape fuel s'.env p fu' hb' hp' hf' hle
+    have : s' = ⟨s'.env, tape⟩ := by rw [← ht]
+    rw [this, h1]
+    exact ⟨s'', rfl, h2⟩
+
+theorem floatPath_id {L : List UInt8} {p : Nat} {tag id v : UInt64}
+    (h : NumberProofs.floatPath L p tag = some (id, v)) : id = tag := by
+  unfold NumberProofs.floatPath at h
+  simp only [] at h
+  split at h
+  · cases h
+  · split at h
+    · injection h with h; injection h with h1 h2; exact h1.symm
+    · cases h
+
+theorem core_id_ne {L : List UInt8} {p : Nat} {a m : Bool} {id v : UInt64}
+    (h : NumberProofs.core L p a m = some (id, v)) : id ≠ 0 := by
+  have f0 : mkWord tagFloat 0 ≠ 0 := by decide
+  have f1 : mkWord tagFloat 0 ||| wFloatOverflowedInteger ≠ 0 := by decide
+  have i0 : mkWord tagInteger 0 ≠ 0 := by decide
+  have u0 : mkWord tagUint 0 ≠ 0 := by decide
+  unfold NumberProofs.core at h
+  simp only [] at h
+  repeat' split at h
+  all_goals first
+    | cases h
+    | (injection h with h; injection h with h1 h2; rw [← h1]; assumption)
+    | (rw [floatPath_id h]; assumption)
+    | skip
+  trace_state
+  sorry
